@@ -261,3 +261,18 @@ Proof.
   rewrite <- (vector_iff tr tb Eb i j bi bj Hbi Hbj). unfold dict_lt, vc_lt.
   split; intros [L [k S]]; (split; [intros x; specialize (L x)|exists k]); rewrite ?Ei, ?Ej in *; lia.
 Qed.
+
+(** The code's own comparison decides happened-before: on the snapshots of two
+    events of a history, [VectorClock.happened_before] (as regenerated, for every
+    iteration order of its key set) is true exactly when the first event happened
+    before the second. *)
+Theorem vector_code_happened_before tr ts : stamps vector_code tr = Some ts ->
+  forall i j ti tj, nth_error ts i = Some ti -> nth_error ts j = Some tj ->
+  forall a b order, VectorClock__vector a = ti -> VectorClock__vector b = tj ->
+  (forall k, In k order <-> In k (VectorClock_happened_before_setiter_elems a b)) ->
+  (VectorClock_happened_before a b order = true <-> hb tr i j).
+Proof.
+  intros Hs i j ti tj Hi Hj a b order Ea Eb Hord.
+  rewrite (tie_vc_happened_before a b order Hord), Ea, Eb.
+  exact (vector_code_iff tr ts Hs i j ti tj Hi Hj).
+Qed.
